@@ -349,6 +349,9 @@ fn run_family(menu: &[(&'static str, T)], n: usize, join_mode: u8, total: &Mutex
             let idxs = decode_seq(i, base, n);
             let seq: Vec<T> = idxs.iter().map(|k| menu[*k].1.clone()).collect();
             for &j in &joins {
+                if !layout_is_faithful(&seq, j) {
+                    continue;
+                }
                 let prog = layout(&seq, j);
                 let (mut cap, mut undef) = (false, false);
                 let (m, mend) = run_model(&prog, 1, false);
@@ -578,6 +581,7 @@ pub fn run(thorough: bool) -> Report {
     let fnm = fn_menu();
     let arr = array_menu();
     let brm = branch_menu();
+    let quiet = quiet_menu();
     let mut fams = vec![];
     // (menu name, menu, statements, join layouts: 2 = all, 1 = none/all/each single, 0 = none only)
     let mut plan: Vec<(&str, &Vec<(&'static str, T)>, usize, u8)> = vec![
@@ -595,6 +599,8 @@ pub fn run(thorough: bool) -> Report {
         ("array", &arr, 4, 1),
         ("branch", &brm, 4, 2),
         ("branch", &brm, 5, 0),
+        ("quiet", &quiet, 4, 1),
+        ("quiet", &quiet, 5, 0),
     ];
     if thorough {
         plan.push(("full", &full, 3, 2));
